@@ -12,6 +12,7 @@ pub mod c35;
 pub mod c40;
 pub mod c41;
 pub mod c42;
+pub mod c45;
 
 pub type RunFn = fn(&mut Report);
 
@@ -28,6 +29,7 @@ pub const REGISTRY: &[(&str, RunFn)] = &[
     ("C40", c40::run),
     ("C41", c41::run),
     ("C42", c42::run),
+    ("C45", c45::run),
 ];
 
 pub fn lookup(id: &str) -> Option<(&'static str, RunFn)> {
